@@ -508,6 +508,7 @@ class Session:
         self.grown = False
         self.misuse = 0
         self.log_records = 0
+        self.interfered = {}     # fault kinds other_matcher / refused_call that fired
 
     # -- life cycle
     def run(self):
@@ -545,6 +546,45 @@ class Session:
     def _new_matcher(self, width="cfg"):
         self.matcher = make_matcher(self.cfg, self.simmap, width)
         self.jumped = False
+
+    def _interference(self, i):
+        """Things that happen between two operations of the client and that the matcher must not be affected by:
+        (fault kind other_matcher) another matcher object of the same family, with other parameters, matches a trace
+        on the same map object; (fault kind refused_call) the client asks the matcher to expand for a trace that is
+        not an extension of the one it holds - the matcher refuses with an exception - and carries on."""
+        m = self.matcher
+        om = (self.faults.get("other_matcher_before") or {}).get(str(i))
+        if om is not None and self.backend is not None:
+            cfg2 = dict(self.cfg)
+            unit = float(self.world.get("unit", 1.0))
+            cfg2["obs_noise"] = 0.37 * float(self.cfg["obs_noise"]) + 0.01 * unit
+            cfg2["max_dist"] = (20.0 if self.world.get("latlon") else 1.0) * 0.02 * unit
+            cfg2.pop("max_dist_init", None)
+            cfg2["non_emitting_states"] = not self.cfg.get("non_emitting_states", True)
+            cfg2.pop("max_lattice_width", None)
+            other = make_matcher(cfg2, self.backend)
+            tr = self.trace2 or self.trace
+            try:
+                other.match(list(tr[:max(1, min(len(tr), int(om)))]))
+            except Exception:
+                pass      # the other client's business
+            self.interfered["other_matcher"] = self.interfered.get("other_matcher", 0) + 1
+        rf = (self.faults.get("refused_before") or {}).get(str(i))
+        if rf is not None and m is not None and self.k and getattr(m, "path", None) and m.lattice:
+            cur = list(self.cur_trace[:self.k])
+            if rf == "prefix" and self.k >= 2:
+                bad = cur[:-1]
+            else:
+                p0 = cur[0]
+                bad = [tuple([p0[0] + 1e-3 * (1 + abs(p0[0])), p0[1]] + list(p0[2:]))] + cur[1:] + [cur[-1]]
+            try:
+                m.match(bad, unique=self.unique, expand=True)
+            except Exception:
+                self.interfered["refused_call"] = self.interfered.get("refused_call", 0) + 1
+            else:
+                # a tree that accepts such a call is not modelled: start afresh with what the client holds
+                m.match(cur, unique=self.unique)
+                self.jumped = False
 
     def _current_width(self):
         return self.matcher.max_lattice_width if self.matcher is not None else self.cfg.get("max_lattice_width")
@@ -587,6 +627,7 @@ class Session:
         if self.matcher is None:
             self._new_matcher()
         m = self.matcher
+        self._interference(i)
         self.simmap.begin_op(i, armed)
         unique = bool(op.get("unique", False))
         try:
